@@ -216,7 +216,9 @@ theorem C13_unknown_types_verbatim (cls ty : Nat)
   `most_recent_owner`, `most_recent_name_in_rdata`), `compress_decision` computes the same decision
   on two buffers of equal size that agree below the cursor: it reads only length octets, label
   octets and pointers of stored names. (`QV.Proofs.WriterScratch`, where the header calls `set_aa`,
-  `set_rcode` are also shown independent of scratch space: `scratch_setAa`, `scratch_setRcode`. The
+  `set_rcode` are also shown independent of scratch space: `scratch_setAa`, `scratch_setRcode`, and
+  the scan lemma also with a two-octet hole below the cursor that no name overlaps — the reserved
+  RDLENGTH octets: `compressDecision_congr_gap`. The
   same statement for whole `add_*_rr` / `add_*_rrset` calls — all writes threaded through, including
   the two RDLENGTH octets that are reserved before and written after the RDATA — is not proved.) -/
 theorem C13_scan_reads_only_below_cursor {G : Nat → Prop} {oct oct' : Bytes} {cur : Nat} {mode : CMode}
